@@ -92,8 +92,9 @@ CFG = {
                    "SuccinctlyVerif/Proof/Utf8Scalar.lean", "SuccinctlyVerif/Proof/Utf8ScalarMain.lean",
                    "SuccinctlyVerif/Proof/Utf8Avx2.lean", "SuccinctlyVerif/Proof/Utf8Codec.lean",
                    "SuccinctlyVerif/Proof/Utf8Broadword.lean", "SuccinctlyVerif/Proof/Utf8BroadwordMain.lean",
+                   "SuccinctlyVerif/Proof/Utf8Prefix.lean", "SuccinctlyVerif/Proof/Utf8LineCol.lean",
                    "SuccinctlyVerif/Model/Utf8.lean", "SuccinctlyVerif/Spec/Utf8.lean"],
-    "required_theorems": ["SV.Props.C13.scalar_ok_iff", "SV.Props.C13.avx2_accept_iff", "SV.Props.C13.simd_engine_agrees", "SV.Props.C13.broadword_accept_iff", "SV.Props.C13.engines_agree",
+    "required_theorems": ["SV.Props.C13.scalar_ok_iff", "SV.Props.C13.avx2_accept_iff", "SV.Props.C13.simd_engine_agrees", "SV.Props.C13.broadword_accept_iff", "SV.Props.C13.engines_agree", "SV.Props.C13.validPrefixLen_spec", "SV.Props.C13.error_linecol",
                           "SV.Props.C13.error_kind_and_offset_partial", "SV.Props.C13.error_offset_refuted"],
     "generated": ["C13:"],
     "allow_bv_decide": True,
